@@ -12,6 +12,7 @@ package main
 // side effects (no auth cookie set, no signed material, database unchanged).
 
 import (
+	"bytes"
 	"encoding/json"
 	"fmt"
 	"net/http"
@@ -304,12 +305,16 @@ func c04Present(w *vWorld, consumer, tok string) (bool, *vResp) {
 		req.SetBasicAuth(c12ClientID("A"), c12Secrets["A"])
 		resp := vServe(w.state.idpOpenIDCTokenHandler, req)
 		var tr tokenResponse
-		return resp.Code == 200 && json.Unmarshal(resp.Body, &tr) == nil && tr.AccessToken != "", resp
+		// honoured = the tokens are in the response, whatever its status line says
+		return (resp.Code == 200 && json.Unmarshal(resp.Body, &tr) == nil && tr.AccessToken != "") ||
+			bytes.Contains(resp.Body, []byte(`"access_token"`)) || bytes.Contains(resp.Body, []byte(`"id_token"`)), resp
 	case "userinfo":
 		req := vNewRequest("GET", idpOpenIDCUserinfoPath, nil)
 		req.Header.Set("Authorization", "Bearer "+tok)
 		resp := vServe(w.state.idpOpenIDCUserinfoHandler, req)
-		return resp.Code == 200, resp
+		// honoured = the user's claims are in the response, whatever its status
+		// line says (an error status with the claims appended still discloses them)
+		return resp.Code == 200 || bytes.Contains(resp.Body, []byte(`"sub"`)) || bytes.Contains(resp.Body, []byte(`"email"`)), resp
 	case "senddoc":
 		req := vNewRequest("GET", "/sendAuthDocument?port=12345&token="+url.QueryEscape(tok), nil)
 		w.applyCred(req, vCred{Kind: "cookie", Bits: AuthTypePassword}, vUserAlice)
